@@ -353,32 +353,68 @@ def stationary_run(tdgl, a, tmp, dev=None):
 # ---------------------------------------------------------------- C01
 
 
-def cell_outflow(mesh, J):
-    """a_i (div J)_i = sum_j J_ij s_ij (docs eq. divergence); J given per edge along edges[:,0] -> edges[:,1]"""
-    em = mesh.edge_mesh
-    flux = J * em.dual_edge_lengths
-    out = np.zeros(len(mesh.sites))
-    np.add.at(out, em.edges[:, 0], flux)
-    np.add.at(out, em.edges[:, 1], -flux)
+def raw_geometry(sites, elements, edges):
+    """First-principles geometry of the finite-volume mesh, rebuilt from the RAW site coordinates and triangles only (docs:
+    'Finite volume method'): edge lengths e_ij = |r_j - r_i|; Voronoi face lengths s_ij = distance between the circumcentres of
+    the two triangles sharing the edge (inner edge) or from the circumcentre of its only triangle to the edge midpoint (boundary
+    edge); boundary edges = edges of exactly one triangle.  `edges` is used only as the index map of the per-edge datasets
+    (which site pair, in which orientation, entry k refers to); it must be exactly the set of triangle edges."""
+    r = np.asarray(sites, dtype=float)
+    tri = np.asarray(elements, dtype=int)
+    edges = np.asarray(edges, dtype=int)
+    A, B, C = r[tri[:, 0]], r[tri[:, 1]], r[tri[:, 2]]
+    d = 2 * (A[:, 0] * (B[:, 1] - C[:, 1]) + B[:, 0] * (C[:, 1] - A[:, 1]) + C[:, 0] * (A[:, 1] - B[:, 1]))
+    a2, b2, c2 = (A ** 2).sum(1), (B ** 2).sum(1), (C ** 2).sum(1)
+    cc = np.stack([(a2 * (B[:, 1] - C[:, 1]) + b2 * (C[:, 1] - A[:, 1]) + c2 * (A[:, 1] - B[:, 1])) / d,
+                   (a2 * (C[:, 0] - B[:, 0]) + b2 * (A[:, 0] - C[:, 0]) + c2 * (B[:, 0] - A[:, 0])) / d], axis=1)
+    owner = {}
+    for t, (i, j, k) in enumerate(tri):
+        for p, q in ((i, j), (j, k), (k, i)):
+            owner.setdefault((min(p, q), max(p, q)), []).append(t)
+    keys = [(min(i, j), max(i, j)) for i, j in edges]
+    if len(set(keys)) != len(keys) or set(keys) != set(owner):
+        raise RuntimeError("raw_geometry: the stored edge list is not the edge set of the triangulation")
+    elen = np.linalg.norm(r[edges[:, 1]] - r[edges[:, 0]], axis=1)
+    mid = (r[edges[:, 1]] + r[edges[:, 0]]) / 2
+    dual = np.zeros(len(edges))
+    boundary = np.zeros(len(edges), dtype=bool)
+    for n, key in enumerate(keys):
+        ts = owner[key]
+        if len(ts) == 1:
+            boundary[n] = True
+            dual[n] = np.linalg.norm(cc[ts[0]] - mid[n])
+        elif len(ts) == 2:
+            dual[n] = np.linalg.norm(cc[ts[0]] - cc[ts[1]])
+        else:
+            raise RuntimeError("raw_geometry: an edge belongs to more than two triangles")
+    return dict(edges=edges, edge_lengths=elen, dual=dual, boundary=boundary, midpoints=mid, nsites=len(r))
+
+
+def cell_outflow(geo, J):
+    """a_i (div J)_i = sum_j J_ij s_ij (docs eq. divergence) with the first-principles Voronoi faces; J per edge along
+    edges[:,0] -> edges[:,1]"""
+    flux = J * geo["dual"]
+    out = np.zeros(geo["nsites"])
+    np.add.at(out, geo["edges"][:, 0], flux)
+    np.add.at(out, geo["edges"][:, 1], -flux)
     return out, flux
 
 
-def terminal_geometry(dev, xi_requested=1.0):
-    """Which boundary edges / boundary sites of the CURRENT mesh lie in which terminal, decided here from the terminal polygons
-    and the mesh arrays (not read from Device.terminal_info(), whose bookkeeping is part of what is checked)."""
-    mesh = dev.mesh
-    em = mesh.edge_mesh
-    xi = float(xi_requested)          # the coherence length asked for when the device was built
-    bidx = np.asarray(em.boundary_edge_indices)
-    centres = xi * np.asarray(em.centers)[bidx]
-    pts = xi * np.asarray(mesh.sites)
-    bsites = np.asarray(mesh.boundary_indices)
-    geo = {}
+def terminal_geometry(dev, geo, xi_requested=1.0):
+    """Which boundary edges / boundary sites lie in which terminal: decided from the terminal polygons (length units), the raw
+    midpoints of the raw boundary edges and the coherence length the harness asked for -- not from Device.terminal_info() or
+    edge_mesh attributes."""
+    xi = float(xi_requested)
+    bidx = np.nonzero(geo["boundary"])[0]
+    centres = xi * geo["midpoints"][bidx]
+    bsites = np.unique(geo["edges"][bidx].reshape(-1))
+    pts = xi * np.asarray(dev.mesh.sites)
+    out = {}
     for t in dev.terminals:
         be = np.asarray(t.contains_points(centres, index=True), dtype=int)
         inside = np.asarray(t.contains_points(pts[bsites], index=True), dtype=int)
-        geo[t.name] = {"bedges": be, "sites": bsites[inside]}
-    return geo
+        out[t.name] = {"bedges": bidx[be], "sites": bsites[inside]}
+    return out
 
 
 def conservation_run(tdgl, a, tmp):
@@ -395,23 +431,23 @@ def conservation_trace(dev, a, ok, frames, err):
     if not ok:
         return tr
     mesh = dev.mesh
-    em = mesh.edge_mesh
-    bidx = np.asarray(em.boundary_edge_indices)
-    blen = np.asarray(em.edge_lengths)[bidx]
-    bedges = np.asarray(em.edges)[bidx]
+    geo = raw_geometry(mesh.sites, mesh.elements, mesh.edge_mesh.edges)
+    # (evidence only) how far the package's own arrays are from the first-principles ones
+    tr["package_vs_raw"] = {"dual": float(np.abs(np.asarray(mesh.edge_mesh.dual_edge_lengths) - geo["dual"]).max() / geo["dual"].max()),
+                            "edge": float(np.abs(np.asarray(mesh.edge_mesh.edge_lengths) - geo["edge_lengths"]).max() / geo["edge_lengths"].max())}
     I0_doc = current_unit_scale(a.get("length_units", "um"), a.get("current_units", "uA"), a.get("scale", 1.0))      # independent constants: used at the coarse level
     # fine level: the device's own K0 and xi (documented properties), so that the last digits of mu0 / Phi0 do not matter
     I0 = float((dev.K0 * dev.coherence_length / 4).to(a.get("current_units", "uA")).magnitude)
     tr["I0_ratio"] = I0 / I0_doc
-    tinfo = terminal_geometry(dev, a.get("scale", 1.0))
+    tinfo = terminal_geometry(dev, geo, a.get("scale", 1.0))
     f_cur = currents_func(a)
     term_cell = np.zeros(len(mesh.sites), dtype=bool)
     share = {}          # terminal -> per-site share of the terminal's length (half of each boundary edge at the site)
     for name, t in tinfo.items():
         sh = np.zeros(len(mesh.sites))
         be = t["bedges"]
-        np.add.at(sh, bedges[be, 0], blen[be] / 2)
-        np.add.at(sh, bedges[be, 1], blen[be] / 2)
+        np.add.at(sh, geo["edges"][be, 0], geo["edge_lengths"][be] / 2)
+        np.add.at(sh, geo["edges"][be, 1], geo["edge_lengths"][be] / 2)
         share[name] = sh
         term_cell |= sh > 0
     tpsi = a.get("terminal_psi", 0.0)
@@ -426,7 +462,7 @@ def conservation_trace(dev, a, ok, frames, err):
             ev.append({"kind": "frame0", "init": init})
             continue
         J = fr["supercurrent"] + fr["normal_current"]
-        out, flux = cell_outflow(mesh, J)
+        out, flux = cell_outflow(geo, J)
         t_prev = fr["time"] - (fr["dts"][-1] if fr["dts"] else 0.0)     # the boundary condition of the last step was set at its start
         req = f_cur(t_prev) if f_cur else {}
         inj = np.zeros(len(mesh.sites))
@@ -587,6 +623,8 @@ def history_run(tdgl, a, tmp):
         elif h == "translate":
             dev.translate(dx=1.25, dy=-0.5, inplace=True)
             dev2 = dev
+        elif h == "translation-context":
+            dev2 = dev
         elif h == "rotate":
             dev2 = dev.rotate(90.0)
             dev2.make_mesh(max_edge_length=a.get("mel2", 0.6), smooth=0)
@@ -601,8 +639,14 @@ def history_run(tdgl, a, tmp):
             dev2.make_mesh(max_edge_length=a.get("mel2", 0.3), smooth=0)
         else:
             raise ValueError(h)
-    ok2, fr2, _, err2 = run_solver(tdgl, a, tmp, dev=dev2)
-    t2 = conservation_trace(dev2, a, ok2, fr2, err2)
+    if h == "translation-context":
+        # solve INSIDE `with device.translation(...)`: the mesh in force is the translated one
+        with dev2.translation(0.75, 1.25):
+            ok2, fr2, _, err2 = run_solver(tdgl, a, tmp, dev=dev2)
+            t2 = conservation_trace(dev2, a, ok2, fr2, err2)
+    else:
+        ok2, fr2, _, err2 = run_solver(tdgl, a, tmp, dev=dev2)
+        t2 = conservation_trace(dev2, a, ok2, fr2, err2)
     t2["ev"] = t1["ev"] + t2["ev"]
     t2["worst_cell"] = max(t1["worst_cell"], t2["worst_cell"])
     t2["worst_term"] = max(t1["worst_term"], t2["worst_term"])
@@ -718,3 +762,24 @@ def validate(ctx, traces, what, describe, known=False):
                 v = core.parse_tla_value(line)
                 clauses[rejected[v[1] - 1]] = [c for c, bit in zip(CLAUSES, v[2:]) if bit]
     return accepted, rejected, clauses, norm
+
+
+def observed(tdgl, a, tmp):
+    """Run the job a['job'] (conservation_run / history_run / holed_run).  An exception that comes out of the code under test
+    (anything not raised by this harness) is an OBSERVATION of the run -- the trace then holds the single event 'raised', which no
+    action of RunObs matches -- never a failure of the machinery: verdicts first."""
+    import traceback
+
+    from . import core
+
+    func = globals()[a["job"]]
+    try:
+        return func(tdgl, a, tmp)
+    except Exception as e:
+        tb = traceback.extract_tb(e.__traceback__)
+        if tb and str(tb[-1].filename).startswith(str(core.VERIF)):
+            raise            # raised by the harness itself (e.g. an observation it cannot read): machinery
+        return {"cfg": {"adaptive": bool(a.get("adaptive", False)), "window": int(a.get("window", 3)), "driven": False,
+                        "screening": bool(a.get("screening", False))},
+                "ev": [{"kind": "raised"}], "args": a, "raised": repr(e)[:500], "where": f"{tb[-1].filename}:{tb[-1].lineno}" if tb else "?",
+                "error": None, "worst_cell": 0.0, "worst_term": 0.0, "nframes": 0}
